@@ -92,10 +92,13 @@ def mutate(rng, c, doc):
 
 
 def modelled_doc(d):
-    """documents the model covers: no nan / inf floats"""
+    """documents the model covers: no nan / inf floats; no list that Decimal() could read as a
+    (sign, digits, exponent) triple"""
     if isinstance(d, float):
         return d == d and d not in (float('inf'), float('-inf'))
     if isinstance(d, (list, tuple)):
+        if len(d) == 3 and d[0] in (0, 1) and isinstance(d[1], (list, tuple)):
+            return False
         return all(modelled_doc(x) for x in d)
     if isinstance(d, dict):
         return all(modelled_doc(k) and modelled_doc(v) for k, v in d.items())
@@ -150,13 +153,13 @@ def family_struct(check, tier):
             for f, T in slots:
                 multi, gty, gnil = g_slot(f, T)
                 for rep in range(2 if tier == 'quick' else 4):
-                    v = D.gen_field_value(rng, w.desc, f, 3, c['poly'], full=(rep == 1 and c['list']))
+                    v = D.gen_field_value(rng, w.desc, f, 2, c['poly'], full=(rep == 1 and c['list']))
                     nat = D.to_native(w.desc, w.classes, v)
                     o = D.observe(prot._object_to_doc, T, nat)
                     if o[0] == 'ok' and not D.doc_in_universe(o[1]):
                         continue
                     enc_cases.append(('(%s, %s, %s, %s, %s)' % (gc, multi, gty, D.g_val(v), D.g_out(o, D.g_doc)),
-                                      'w%d %s _object_to_doc %s %r -> %r' % (wi, D.cfg_name(c), f['name'], D.jsonable(v), o)))
+                                      ('w%d %s _object_to_doc %s %r -> %r' % (wi, D.cfg_name(c), f['name'], D.jsonable(v), o))[:400]))
                     check.count(('enc', wi, D.cfg_name(c), f['name'], repr(D.jsonable(v))))
                     # documents: the reference form, Spyne's own form, and mutants of both
                     docs = []
@@ -188,7 +191,7 @@ def family_struct(check, tier):
                                 continue
                             od = ('ok', nv)
                         dec_cases.append(('(%s, %s, %s, %s, %s)' % (gc, gnil, gty, D.g_doc(d), D.g_out(od, D.g_val)),
-                                          'w%d %s _from_dict_value %s %r -> %r' % (wi, D.cfg_name(c), f['name'], d, od if od[0] != 'ok' else D.jsonable(od[1]))))
+                                          ('w%d %s _from_dict_value %s %r -> %r' % (wi, D.cfg_name(c), f['name'], d, od if od[0] != 'ok' else D.jsonable(od[1])))[:400]))
                         check.count(('dec', wi, D.cfg_name(c), f['name'], repr(d)))
         imports = IMPORTS + 'Definition U : duniverse := %s.\n' % w.g_universe
         lib.correspond(check, 'object_to_doc_w%d' % wi, imports, 'cfg * bool * dty * dval * out jv',
@@ -209,8 +212,13 @@ def run(check):
         ok, log = lib.build(['Wire/Dict.vo'])
         if not ok:
             check.broken.append(('proof', 'Wire/Dict.v', log[-500:]))
+    import time
+    t0 = time.time()
     family_struct(check, tier)
+    check.log('struct cases generated in %.1fs' % (time.time() - t0))
+    t0 = time.time()
     lib.flush_correspondences(check)
+    check.log('correspondences evaluated in %.1fs' % (time.time() - t0))
     return check.finish()
 
 
